@@ -1349,9 +1349,9 @@ func (timeComp) Gen(rng *rand.Rand, tier string) [][]string {
 		hs = append(hs, h)
 	}
 	// an Upsert with a span of zero (or below the stored one) on a present key: the span is unchanged, the countdown restarts
-	for d, kind := range []string{"tc", "peer"} {
+	for d, kind := range []string{"tc", "peer", "peer", "tc"} {
 		h := []string{fmt.Sprintf("begin timecache kind=%s span=%d", kind, 60*ms)}
-		h = append(h, fmt.Sprintf("upsert 0a %d -", 900*ms), "sleep "+fmt.Sprint(600*ms), fmt.Sprintf("upsert 0a %d -", d*20*ms),
+		h = append(h, fmt.Sprintf("upsert 0a %d -", 900*ms), "sleep "+fmt.Sprint(600*ms), fmt.Sprintf("upsert 0a %d -", (d%2)*20*ms),
 			"sleep "+fmt.Sprint(500*ms), "sweep", "has 0a", "sleep "+fmt.Sprint(700*ms), "sweep", "has 0a")
 		hs = append(hs, h)
 	}
